@@ -273,3 +273,54 @@ Example ex_retryable :
   connect_script [DRNoResponse; DRStatus 503; DRStatus 502; DRConnected; DRStatus 401] = (4%nat, Some true) /\
   connect_script [DRStatus 500; DRStatus 401; DRConnected] = (2%nat, Some false).
 Proof. vm_compute. repeat split. Qed.
+
+(* ---- exponential growth, quantitatively: the k-th wait of a run (k = 0 first) is at least min(2^k * base, max), where base
+   is the base wait of the state the run starts from (min for a fresh backoff) *)
+Lemma kth_wait_lower : forall ws b k w,
+  bo_inv b -> bo_retries b = 0 -> 0 < bo_min b -> 0 < bo_max b -> legal_run b ws = true ->
+  nth_error (backoff_run b ws) k = Some (Some w) ->
+  Z.min (2 ^ Z.of_nat k * base_wait b) (bo_max b) <= w.
+Proof.
+  induction ws as [|x r IH]; intros b k w Hinv H0 Hmin Hmax Hl Hn.
+  - destruct k; discriminate.
+  - cbn [backoff_run legal_run] in *.
+    destruct (backoff_step b x) as [[b' w']|] eqn:E.
+    + apply andb_true_iff in Hl. destruct Hl as [Hv Hl].
+      destruct (step_inv _ _ _ _ Hinv Hv E) as (Hinv' & -> & Hb & Hr & Hmn & Hmx & Hlast & _).
+      pose proof (valid_wait_bounds _ _ Hv) as Hvb.
+      pose proof (base_wait_nonneg b Hinv) as Hbn.
+      destruct k as [|k].
+      * cbn [nth_error] in Hn. inversion Hn; subst w. cbn [Z.of_nat]. rewrite Z.pow_0_r. lia.
+      * cbn [nth_error] in Hn.
+        assert (Hne : bo_last b' <> 0).
+        { rewrite Hlast. pose proof (base_wait_ge b Hinv). lia. }
+        specialize (IH b' k w Hinv' (eq_trans Hr H0) ltac:(lia) ltac:(lia) Hl Hn).
+        rewrite (base_wait_doubles b' Hne), Hlast, Hmx in IH.
+        rewrite Nat2Z.inj_succ, Z.pow_succ_r by lia.
+        assert (Hp : 1 <= 2 ^ Z.of_nat k) by (apply Z.pow_le_mono_r with (b := 0) (c := Z.of_nat k) (a := 2); lia).
+        (* 2^k * min(2x, M) >= min(2^(k+1) * base, M) because x >= base, 2^k >= 1 *)
+        assert (Hx : base_wait b <= x) by lia.
+        destruct (Z.min_spec (2 * x) (bo_max b)) as [[_ Em]|[_ Em]]; rewrite Em in IH;
+          destruct (Z.min_spec (2 ^ Z.of_nat k * (2 * x)) (bo_max b)) as [[_ E1]|[_ E1]];
+          destruct (Z.min_spec (2 * 2 ^ Z.of_nat k * base_wait b) (bo_max b)) as [[_ E2]|[_ E2]];
+          try rewrite E1 in IH; try rewrite E2; try nia;
+          destruct (Z.min_spec (2 ^ Z.of_nat k * bo_max b) (bo_max b)) as [[_ E3]|[_ E3]]; try rewrite E3 in IH; nia.
+    + apply step_abort_iff in E. destruct E as [E _]. contradiction.
+Qed.
+
+(* for the backoff the reconnection loop builds: the k-th wait is at least min(2^k * min, max) - 100 ms, 200 ms, 400 ms, ...
+   up to 15 s with the defaults - and never above max + 10 % *)
+Lemma connect_kth_wait cmin cmax ws k w :
+  0 <= cmin -> 0 <= cmax -> legal_run (connect_backoff cmin cmax) ws = true ->
+  nth_error (backoff_run (connect_backoff cmin cmax) ws) k = Some (Some w) ->
+  Z.min (2 ^ Z.of_nat k * Z.min (bo_min (connect_backoff cmin cmax)) (bo_max (connect_backoff cmin cmax))) (bo_max (connect_backoff cmin cmax)) <= w
+  /\ w <= cap (connect_backoff cmin cmax).
+Proof.
+  intros A B Hl Hn. destruct (connect_backoff_ok cmin cmax A B) as (Hinv & H0 & Hmin & Hmax).
+  split.
+  - pose proof (kth_wait_lower ws _ k w Hinv H0 Hmin Hmax Hl Hn) as H.
+    pose proof (base_wait_ge _ Hinv) as Hg.
+    assert (Hp : 0 <= 2 ^ Z.of_nat k) by (apply Z.pow_nonneg; lia).
+    etransitivity; [|exact H]. apply Z.min_le_compat_r. apply Z.mul_le_mono_nonneg_l; assumption.
+  - apply (waits_bounded _ ws w Hinv Hl). eapply nth_error_In. exact Hn.
+Qed.
